@@ -132,8 +132,12 @@ func typeClass(t string) string {
 		return "any"
 	}
 
-	if strings.HasPrefix(t, "depth") {
-		return t // struct nesting depth of the struct-copy forms
+	// struct nesting depth of the struct-copy forms: shallow (1-2) or deep (3-4)
+	switch t {
+	case "depth1", "depth2":
+		return "depth1-2"
+	case "depth3", "depth4":
+		return "depth3-4"
 	}
 
 	return "sized-int"
